@@ -75,6 +75,7 @@ SNIPPETS = [
 ]
 NAMES = [s[0] for s in SNIPPETS]
 CORE12 = ["fullA", "fullA0", "fullA2", "fullA3", "fullB", "fullC", "fullC3", "fullP", "fullQ", "fullU", "shortAmb", "shortAmbJones", "shortP", "shortPQux", "supraBar", "refJones", "idNoPin", "idValid", "idEdgeOut", "unknown"]
+MID32 = CORE12 + ["fullA4", "fullA5", "fullM1", "fullM2", "fullM4", "fullM5", "fullFoo2", "supraFooVol", "supraFoo", "fullDze", "refDze", "fullDoeS"]
 CLASS = {"fullA": "A", "fullA2": "A", "fullA0": "A", "fullA3": "A", "fullA4": "A", "fullA5": "A", "fullBrown": "Brown", "fullM1": "MA", "fullM4": "MA", "fullM5": "MA", "fullFoo2": "Foo2", "fullDoeS": "DoeS", "fullDze": "Dze", "fullMac": "Mac", "fullM2": "MJ", "fullM3": "MJ", "jour2": "jour", "lawU1": "lawU", "lawU2": "lawU", "fullB": "B", "fullC": "C", "fullC3": "C3", "fullP": "P", "fullQ": "Q", "fullU": "U", "law": "law", "lawR1": "lawR1", "lawR2": "lawR2", "jour": "jour", "jourP": "jourP"}
 PLACEHOLDER_CLASSES = ("P", "Q", "U")  # every instance is its own resource: the canonical state counts them (capped at 2)
 K = {}
